@@ -250,8 +250,8 @@ def corpus(outdir, tier):
     u.module("ops_i2", [], funcs, [f[0] for f in funcs])
     for p, t in (("f", "f"), ("d", "d"), ("ld", "ld")):
         # symbolic operands where the SAT back end decides the equivalence of the two copies of the IEEE circuit in reasonable time
-        # (measured: fadd 15 s, dadd 60 s CPU; dmul no verdict in 120 s); mul / div and all long double arithmetic on a grid of constants
-        sym = ["add", "sub"] if p != "ld" else []
+        # (measured: fadd 15 s, dadd 60 s CPU, dmul no verdict in 120 s): fadd/fsub symbolic; everything else on a grid of constants
+        sym = ["add", "sub"] if p == "f" else []
         funcs = [("c20_%s%s" % (p, o), "%s, %s:a, %s:b" % (t, t, t), ["local %s:r" % t, "%s%s r, a, b" % (p, o), "ret r"]) for o in sym]
         funcs.append(("c20_%sneg" % p, "%s, %s:a" % (t, t), ["local %s:r" % t, "%sneg r, a" % p, "ret r"]))
         u.module("ops_%s_arith" % p, [], funcs, [f[0] for f in funcs])
@@ -259,7 +259,7 @@ def corpus(outdir, tier):
         off = 0
         for xv, yv in [(3, 7), (-5, 2), (1, 3), (1 << 40, 3), (0, 5), (1000003, -7)]:
             body += ["mov t, %d" % xv, "i2%s x, t" % p, "mov t, %d" % yv, "i2%s y, t" % p]
-            for o in (["mul", "div"] if p != "ld" else ["add", "sub", "mul", "div"]):
+            for o in (["mul", "div"] if p == "f" else ["add", "sub", "mul", "div"]):
                 body.append("%s%s r, x, y" % (p, o))
                 if p == "f":
                     body.append("fmov f:%d(b), r" % off)
@@ -379,7 +379,10 @@ def corpus(outdir, tier):
         u.module("imm_" + t, [], funcs, [f[0] for f in funcs])
     # fp immediates as operands of arithmetic insns (no move insn involved; DESIGN.md F8: long double printed from op.u.d)
     for t, sfx in (("f", "f"), ("d", ""), ("ld", "L")):
-        u.module("imm_op_" + t, [], [("c20_immop_" + t, "%s, %s:a" % (t, t), ["local %s:r" % t, "%ssub r, a, 1.5%s" % (t if t != "f" else "f", sfx), "ret r"]),
+        first = ("c20_immop_" + t, "%s, %s:a" % (t, t), ["local %s:r" % t, "%ssub r, a, 1.5%s" % (t if t != "f" else "f", sfx), "ret r"])
+        if t == "ld":  # constant left operand: a symbolic x87/binary128 subtraction on two legs with DIFFERENT constants costs the SAT back end 10+ minutes
+            first = ("c20_immop_ld", "ld", ["local ld:r, ld:x, i64:k", "mov k, 4", "i2ld x, k", "ldsub r, x, 1.5L", "ret r"])
+        u.module("imm_op_" + t, [], [first,
                                      ("c20_immop2_" + t, "i64, %s:a" % t, ["local i64:r", "%slt r, a, 0.1%s" % (t if t != "f" else "f", sfx), "ret r"])], ["c20_immop_" + t, "c20_immop2_" + t], solo=(t == "ld"))
     for t, mv, sfx, v in (("f", "fmov", "f", "1.0e39"), ("d", "dmov", "", "1.0e999"), ("ld", "ldmov", "L", "1.0e9999")):
         u.module("imm_inf_" + t, [], [("c20_imm_inf_" + t, t, ["local %s:r" % t, "%s r, %s%s" % (mv, v, sfx), "ret r"])], ["c20_imm_inf_" + t])
